@@ -294,7 +294,7 @@ func (session *BaseInSession) onReadRtcpPacket(b []byte, rAddr *net.UDPAddr, err
 func (session *BaseInSession) handleRtcpPacket(b []byte, rAddr *net.UDPAddr) error {
 	session.sessionStat.AddReadBytes(len(b))
 
-	if len(b) <= 0 {
+	if len(b) < rtprtcp.RtcpHeaderLength {
 		Log.Errorf("[%s] handleRtcpPacket but length invalid. len=%d", session.UniqueKey(), len(b))
 		return nazaerrors.Wrap(base.ErrRtsp)
 	}
@@ -303,6 +303,10 @@ func (session *BaseInSession) handleRtcpPacket(b []byte, rAddr *net.UDPAddr) err
 
 	switch packetType {
 	case rtprtcp.RtcpPacketTypeSr:
+		if len(b) < rtprtcp.RtcpSrMinLength {
+			Log.Errorf("[%s] handleRtcpPacket but sr too short. len=%d", session.UniqueKey(), len(b))
+			return nazaerrors.Wrap(base.ErrRtsp)
+		}
 		sr := rtprtcp.ParseSr(b)
 		if session.dumpReadSr.ShouldDump() {
 			session.dumpReadSr.Outf("[%s] READ_RTCP. sr=%+v", session.UniqueKey(), sr)
